@@ -6,6 +6,7 @@ import (
 	"encoding/hex"
 	"fmt"
 	"testing"
+	"time"
 
 	"github.com/peterstace/simplefeatures/geom"
 	"pgregory.net/rapid"
@@ -271,11 +272,12 @@ func c04Scan(model gm.G, g geom.Geometry, lib, mixed []byte, cx *h.Ctx) *h.Failu
 
 func TestC04(t *testing.T) {
 	h.Run(t, h.Prop[C04Case]{
-		ID:          "C04",
-		Rule:        "cases = a geometry model (7 types x 4 coordinate types, empties at every position incl. empty Point in MultiPoint/collection, nesting to depth 4, Go zero values; XY from finite float64 classes, Z/M additionally NaN payloads and +-Inf; one third from a valid-by-construction family so that Scan is exercised) x a per-element byte-order bitmap x trailing bytes x AppendWKB prefix; oracles = independent WKB writer/reader written from the spec + structural bit-wise comparison of model trees; non-trivial = nesting depth >= 2 or an empty member or a non-integer/special float or a big-endian element; distinct = distinct case hashes",
-		Assumptions: []string{"independent WKB codec (internal/codec/wkb.go) follows ISO WKB", "gm model <-> geom conversion through public constructors/accessors is faithful (checked per case by read-back)"},
-		Gen:         c04Gen,
-		Check:       c04Check,
+		ID:              "C04",
+		WholeCheckLimit: 300 * time.Second,
+		Rule:            "cases = a geometry model (7 types x 4 coordinate types, empties at every position incl. empty Point in MultiPoint/collection, nesting to depth 4, Go zero values; XY from finite float64 classes, Z/M additionally NaN payloads and +-Inf; one third from a valid-by-construction family so that Scan is exercised) x a per-element byte-order bitmap x trailing bytes x AppendWKB prefix; oracles = independent WKB writer/reader written from the spec + structural bit-wise comparison of model trees; non-trivial = nesting depth >= 2 or an empty member or a non-integer/special float or a big-endian element; distinct = distinct case hashes",
+		Assumptions:     []string{"independent WKB codec (internal/codec/wkb.go) follows ISO WKB", "gm model <-> geom conversion through public constructors/accessors is faithful (checked per case by read-back)"},
+		Gen:             c04Gen,
+		Check:           c04Check,
 	})
 }
 
